@@ -129,6 +129,11 @@ def none_deref(ctx, g, slots):
     return None
 
 
+def edge_has_fact_local(edge, pred):
+    from .c03 import edge_has_fact
+    return edge_has_fact(edge, pred)
+
+
 def run(ctx, R, tier):
     p = ctx.p
     R.rule("C01-R1", "decode symmetry: loadsCall and loads use the same library routine with the same keyword map, and apply class re-creation / byte normalisation alike", floor=12)
@@ -351,6 +356,40 @@ def run(ctx, R, tier):
                     "the kwargs slot is only passed on, tested, or dereferenced under a guard / `or {}` default", g.loc(),
                     ("`%s` at %s dereferences the kwargs slot, which is None for remote attribute access and for batches (%s): every such request fails "
                      "with this serializer" % (unparse(bad, 70), g.loc(bad), none_sites[0])) if bad is not None else "")
+
+    # ---------------------------------------------------------------- R10
+    R.rule("C01-R10", "marshal: the pre-conversion reaches values nested in containers (marshal has no per-object hook), like recreate_classes does on the way back", floor=2)
+    mcls = p.cls("Pyro5.serializers.MarshalSerializer")
+    conv = mcls.methods.get("convert_obj_into_marshallable")
+    if conv is None:
+        raise AnalysisError("MarshalSerializer.convert_obj_into_marshallable vanished")
+    op = conv.params[1]
+    CONT = {"list", "tuple", "dict", "set", "frozenset"}
+    passthrough = set()
+    for r in walk_no_nested(conv.node):
+        if isinstance(r, ast.Return) and isinstance(r.value, ast.Name) and r.value.id == op:
+            for n in ctx.cfg(conv).nodes_for(r):
+                for other in walk_no_nested(conv.node):
+                    if isinstance(other, ast.Call) and isinstance(other.func, ast.Name) and other.func.id == "isinstance" and len(other.args) == 2 \
+                            and unparse(other.args[0]) == op:
+                        tnode = ctx.node_of(conv, other)
+                        def is_inst(atom, pol, other=other):
+                            return unparse(atom) == unparse(other) and pol is True
+                        if ctx.cfg(conv).guarded(n, lambda e: edge_has_fact_local(e, is_inst)):
+                            t = other.args[1]
+                            if isinstance(t, ast.Name):
+                                vals = [d.value for d in ctx.rd(conv).reaching(n, t.id) if d.value is not None]
+                                t = vals[0] if len(vals) == 1 else t
+                            elts = t.elts if isinstance(t, ast.Tuple) else [t]
+                            passthrough |= {unparse(e) for e in elts}
+    leaked = sorted(passthrough & CONT)
+    R.check(not leaked, "C01-R10", "convert_obj_into_marshallable|containers-not-passed-through", "no container type is returned unconverted", conv.loc(),
+            "values of type %s are handed to marshal as they are: an object nested in them (the exception wrapper in a batch reply, a class instance among batched arguments, "
+            "a URI in a tuple) makes the whole message unmarshallable although the same value travels fine on its own" % ", ".join(leaked))
+    rec = [c for c in walk_no_nested(conv.node) if isinstance(c, ast.Call) and isinstance(c.func, ast.Attribute) and c.func.attr == conv.name
+           and isinstance(c.func.value, ast.Name) and c.func.value.id == conv.self_name]
+    R.check(len(rec) >= 2, "C01-R10", "convert_obj_into_marshallable|recurses-into-members", "members of sequences/sets and values of dicts are converted recursively (%d recursive calls)" % len(rec),
+            conv.loc(), "the conversion does not call itself for the members of containers")
 
     # ---------------------------------------------------------------- R3
     from ..report import Rules
